@@ -1212,6 +1212,8 @@ impl<K: KeyLike, KH: KHM<K>, S: HB> Subject<K> for WtG<K, KH, S> {
         .set_protected_cache_size(cfg.b)
         .set_probationary_cache_size(cfg.c)
         .set_samples(cfg.samples);
+        // `gr` doubles as the doorkeeper's false-positive ratio when it is not the default
+        let b = if cfg.gr != 0.5 { b.set_false_positive_ratio(cfg.gr) } else { b };
         let r = if cfg.ctor == 2 {
             WTinyLFUCache::from_builder(b)
         } else {
